@@ -167,6 +167,8 @@ def monitor_null_build(run, where, inv, meta, hist, ii, rep):
                     if d != "-":
                         names |= {posixpath.normpath(unhexs(x).decode()) for x in d.split(";")}
         if all(n in prev.files for n in names):
+            if pm.get("adopt") and inv.result.startswith("err:") and b"unknown path requested" in unhexs(inv.result[4:]):
+                return      # `-t restat` skips names it does not know (run.rs cites CMake); the build proper refuses them, rightly
             if inv.result != "ok:0":
                 run.report_failure(None, "a repeated build with nothing changed is not a null build: %s" % inv.result[:60], where)
 
